@@ -196,6 +196,7 @@ type shardOut struct {
 	Violations []violation             `json:"violations"`
 	Extra      map[string]any          `json:"extra,omitempty"`
 	Sets       map[string][]string     `json:"sets,omitempty"`
+	Max        map[string]float64      `json:"max,omitempty"`
 	Completed  bool                    `json:"completed"`
 }
 
@@ -381,6 +382,11 @@ func runProp(p propCfg, tier, replay string) int {
 			}
 		}
 		viols = append(viols, r.out.Violations...)
+		for k, v := range r.out.Max {
+			if cur, ok := extra["max:"+k].(float64); !ok || v > cur {
+				extra["max:"+k] = round3(v)
+			}
+		}
 		for name, items := range r.out.Sets {
 			m := setUnion[name]
 			if m == nil {
@@ -562,9 +568,10 @@ func runProp(p propCfg, tier, replay string) int {
 		"wall_s":      round2(time.Since(start).Seconds()),
 		"violations":  realViol,
 	}
-	_ = os.MkdirAll(filepath.Join(root, "evidence"), 0o755)
+	evDir := envOr("VERIF_EVIDENCE_DIR", filepath.Join(root, "evidence"))
+	_ = os.MkdirAll(evDir, 0o755)
 	eb, _ := json.MarshalIndent(ev, "", " ")
-	_ = os.WriteFile(filepath.Join(root, "evidence", p.ID+".json"), append(eb, '\n'), 0o644)
+	_ = os.WriteFile(filepath.Join(evDir, p.ID+".json"), append(eb, '\n'), 0o644)
 
 	status := map[int]string{0: "OK", 1: "VIOLATION", 2: "INCONCLUSIVE"}[exit]
 	fmt.Printf("%s property=%s tier=%s seed=%d evaluations=%d distinct_nontrivial=%d wall=%.1fs\n",
@@ -572,6 +579,7 @@ func runProp(p propCfg, tier, replay string) int {
 	return exit
 }
 
+func round3(f float64) float64 { return float64(int64(f*1000+0.5)) / 1000 }
 func round2(f float64) float64 { return float64(int64(f*100+0.5)) / 100 }
 
 func tail(s string, n int) string {
